@@ -1,9 +1,104 @@
 import QecVerif.Model.Wire
+import QecVerif.Model.DriverLattice
+import QecVerif.Model.DriverLatticeToric
+import QecVerif.Model.Decoders
 namespace Qec.Drv
-open Qec Qec.Wire
+open Qec Qec.Wire Qec.Dec
+
+namespace C02
+
+def showPair (p : Idx2 × Idx2) : String := s!"{showIdx p.1}>{showIdx p.2}"
+def showPairs (l : List (Idx2 × Idx2)) : String := if l.isEmpty then "_" else ";".intercalate (l.map showPair)
+def showWEdges (l : List (Idx2 × Idx2 × Nat)) : String :=
+  if l.isEmpty then "_" else ";".intercalate (l.map fun e => s!"{showIdx e.1}>{showIdx e.2.1}@{e.2.2}")
+def showWEdges3 (l : List (Toric.Idx × Toric.Idx × Nat)) : String :=
+  if l.isEmpty then "_" else ";".intercalate (l.map fun e => s!"{showIdx3 e.1}>{showIdx3 e.2.1}@{e.2.2}")
+
+/-- CMWPM graph nodes: `d:r,c` the defect's node, `v:r,c` the private virtual node of the defect `(r,c)` -/
+def parseCNode? (s : String) : Option CNode :=
+  match s.splitOn ":" with
+  | ["d", i] => (parseIdx? i).map fun i => (false, i)
+  | ["v", i] => (parseIdx? i).map fun i => (true, i)
+  | _ => none
+def showCNode (x : CNode) : String := (if x.1 then "v:" else "d:") ++ showIdx x.2
+def parseCPairs? (s : String) : Option (List (CNode × CNode)) :=
+  if s == "_" then some [] else
+  (s.splitOn ";").mapM fun p =>
+    match p.splitOn ">" with
+    | [a, b] => do let a ← parseCNode? a; let b ← parseCNode? b; pure (a, b)
+    | _ => none
+def showCPairs (l : List (CNode × CNode)) : String :=
+  if l.isEmpty then "_" else ";".intercalate (l.map fun p => s!"{showCNode p.1}>{showCNode p.2}")
+
+/-- `s:r;s:r;…` -/
+def parseCases? (s : String) : Option (List (BVec × BVec)) :=
+  if s == "_" then some [] else
+  (s.splitOn ";").mapM fun p =>
+    match p.splitOn ":" with
+    | [a, b] => do let a ← parseBits? a; let b ← parseBits? b; pure (a, b)
+    | _ => none
+
+def parseSize2? (r c : String) : Option (Int × Int) := do
+  let r ← parseInt? r; let c ← parseInt? c
+  if r < 2 || c < 2 then none else pure (r, c)
+
+end C02
+open C02
 
 /-- driver ops of property C02 (first protocol token `c02`) -/
 def c02 : List String → Option String
+  -- verified monitor on the real decoder's outputs: one verdict bit per (syndrome, recovery) pair
+  | ["monitor", n, S, cases] => do
+      let n ← parseNat? n; let S ← parseMat? S; let cs ← parseCases? cases
+      pure (showBits (cs.map fun c => recoveryOkN n S c.1 c.2))
+  | ["planar.graph", r, c, s] => do
+      let (r, c) ← parseSize2? r c; let s ← parseBits? s
+      let p := planarWeightedEdges r c true (planarDefects r c s true)
+      let d := planarWeightedEdges r c false (planarDefects r c s false)
+      pure s!"P={showWEdges p} D={showWEdges d}"
+  | ["planar.mwpm", r, c, s, mp, md] => do
+      let (r, c) ← parseSize2? r c; let s ← parseBits? s; let mp ← parsePairs? mp; let md ← parsePairs? md
+      let dp := planarDefects r c s true; let dd := planarDefects r c s false
+      let okP := isPerfectMatchingOfGraph (planarNodes r c true dp) (planarEdges r c true dp) mp
+      let okD := isPerfectMatchingOfGraph (planarNodes r c false dd) (planarEdges r c false dd) md
+      pure s!"{showExB (planarMwpmRecovery r c mp md)} pm={showBool okP}{showBool okD}"
+  | ["planar.cmwpm.graph", r, c, s] => do
+      let (r, c) ← parseSize2? r c; let s ← parseBits? s
+      pure s!"P={showCPairs (cmwpmEdges (planarDefects r c s true))} D={showCPairs (cmwpmEdges (planarDefects r c s false))}"
+  | ["planar.cmwpm", r, c, s, mp, md] => do
+      let (r, c) ← parseSize2? r c; let s ← parseBits? s; let mp ← parseCPairs? mp; let md ← parseCPairs? md
+      let dp := planarDefects r c s true; let dd := planarDefects r c s false
+      let okP := isPerfectMatchingOfGraph (cmwpmNodes dp) (cmwpmEdges dp) mp
+      let okD := isPerfectMatchingOfGraph (cmwpmNodes dd) (cmwpmEdges dd) md
+      pure s!"{showExB (planarCmwpmRecovery r c mp md)} pm={showBool okP}{showBool okD} P={showPairs (cmwpmMatches r c mp)} D={showPairs (cmwpmMatches r c md)}"
+  | ["planar.cmwpm0", r, c] => do
+      let (r, c) ← parseSize2? r c
+      pure (showExB (planarCmwpmNull r c))
+  | ["toric.graph", r, c, s] => do
+      let (r, c) ← parseSize2? r c; let s ← parseBits? s
+      pure s!"P={showWEdges3 (toricWeightedEdges r c (toricDefects r c s 0))} D={showWEdges3 (toricWeightedEdges r c (toricDefects r c s 1))}"
+  | ["toric.mwpm", r, c, s, m0, m1] => do
+      let (r, c) ← parseSize2? r c; let s ← parseBits? s; let m0 ← parsePairs3? m0; let m1 ← parsePairs3? m1
+      let d0 := toricDefects r c s 0; let d1 := toricDefects r c s 1
+      let ok0 := isPerfectMatchingOfGraph (toricNodes d0) (toricEdges d0) m0
+      let ok1 := isPerfectMatchingOfGraph (toricNodes d1) (toricEdges d1) m1
+      pure s!"{showExB (toricMwpmRecovery r c m0 m1)} pm={showBool ok0}{showBool ok1}"
+  | ["planar.sample", r, c, s] => do
+      let (r, c) ← parseSize2? r c; let s ← parseBits? s
+      pure (showExB (planarSampleRecovery r c s))
+  | ["rplanar.sample", r, c, s] => do
+      let r ← parseInt? r; let c ← parseInt? c; let s ← parseBits? s
+      if r < 3 || c < 3 then none else pure (showBits (rotatedPlanarSampleRecovery r c s))
+  | ["color.sample", l, s] => do
+      let l ← parseInt? l; let s ← parseBits? s
+      if l < 3 || l % 2 == 0 then none else pure (showBits (color666SampleRecovery l s))
+  | ["coset", sample, lx, lz, rec] => do
+      let sample ← parseBits? sample; let lx ← parseBits? lx; let lz ← parseBits? lz; let rec ← parseBits? rec
+      pure (match cosetOf sample lx lz rec with | some p => String.singleton p.toChar | none => "none")
+  | ["naive", mq, n, S, s] => do
+      let mq ← parseOptNat? mq; let n ← parseNat? n; let S ← parseMat? S; let s ← parseBits? s
+      pure (match naiveDecodeFull mq n S s with
+        | .valueError => "ValueError" | .pyNone => "None" | .recovery r => "ok " ++ showBits r)
   | _ => none
 
 end Qec.Drv
